@@ -191,6 +191,19 @@ CLAIMED = {
              'not evaluated.',
         technique='path-sensitive abstract interpretation with exact rational normal forms vs a parametric jump-ratio model',
     ),
+    'C12': dict(
+        category='other',
+        text='Six of the eight clauses are decided by exact algebra on the returned normal forms: non-positive energy is an '
+             'error; evenness and 2pi-periodicity (angles occur only under cos and even powers of sin); strictly positive '
+             'value and non-vanishing divisors by the sign domain (cos in [-1,1] => 1-cos in [0,2] => denominators >= 1); '
+             'unpolarised = azimuthal average of polarised for Thomson and Klein-Nishina; DCS_KN = Thomson-like form in the '
+             'Compton-energy ratio; E -> 0 reduces KN to Thomson; ComptonEnergy closed form, end points and monotonicity.',
+        design_ref='DESIGN.md section 2, C12',
+        note='NOT decided (no sound static argument in reach): CS_KN equals the solid-angle integral of DCS_KN, and '
+             'Klein-Nishina never exceeds Thomson. A coefficient error in CS_KN is therefore not detected. Rounding and '
+             'low-energy cancellation are not evaluated.',
+        technique='exact rational/trigonometric normal forms with substitution; interval sign domain',
+    ),
 }
 
 NOT_YET = {}
